@@ -281,6 +281,20 @@ func c12(c *h.Ctx) {
 		sd := avcSampleDec(size, bs)
 		c.Eq("sample.dec", fmt.Sprintf("avc.sample.dec %d %s", size, hx), sd, c.O.Call("avc.sample.dec", fmt.Sprint(size), hx))
 		c.Hold(sd != "panic", "no_panic", fmt.Sprintf("avc.sample.dec %d %s", size, hx), sd, "ok|err")
+		if i%8 == 0 {
+			// length sizes no configuration record can express (5..8 bytes): outside the property, model = implementation
+			// only — including the panic of an 8-byte length with the top bit set (Lean: sample_len8_witness)
+			big := 5 + r.Intn(4)
+			bb := bs
+			if big == 8 && r.Bool() {
+				bb = append([]byte{byte(0x80 | r.Intn(128))}, r.Bytes(7+r.Intn(4))...)
+			}
+			sdb := avcSampleDec(big, bb)
+			if strings.HasPrefix(sdb, "panic") {
+				sdb = "panic"
+			}
+			c.Eq("sample.dec", fmt.Sprintf("avc.sample.dec %d %s", big, h.Hex(bb)), sdb, c.O.Call("avc.sample.dec", fmt.Sprint(big), h.Hex(bb)))
+		}
 		c.Case("malformed/"+strings.Fields(dec)[0]+"/"+strings.Fields(sd)[0], hx, true)
 	}
 }
